@@ -678,3 +678,10 @@ Proof.
   - intros; eapply acc_rt_spec; eauto.
   - apply Forall_forall; auto.
 Qed.
+
+(* The refresh handler never consults the embedder's ShouldIssueRefreshTokenFunc: whatever function is
+   installed (constant or depending on the grant type / active scopes of the refreshed grant info), the
+   program it runs is the same - in particular rotation does not depend on it. *)
+Lemma refresh_ignores_issue_policy w f n now r :
+  refresh_grant (mkWorld (w_cfg w <| cf_issue_refresh := f |>) (w_static w)) n now r = refresh_grant w n now r.
+Proof. destruct w as [cfg st]. destruct cfg. reflexivity. Qed.
